@@ -79,9 +79,16 @@ static void d_fill_dest(uint32_t *bits, pixman_format_code_t f, int w, int h, in
     }
 }
 
+/* "no clip" has two histories: never clipped, or clipped to a small rectangle earlier and reset with NULL since (the old boxes stay in the image; only the flag says they are dead) */
+static int d_clip_was_reset;
 static void d_set_clip(pixman_image_t *img, int clip)
 {
     pixman_region32_t r;
+    if (clip == 0 && d_clip_was_reset) {
+        pixman_region32_init_rect(&r, 0, 0, 3, 2); pixman_image_set_clip_region32(img, &r); pixman_region32_fini(&r);
+        if (d_clip_was_reset == 1) pixman_image_set_clip_region32(img, NULL); else pixman_image_set_clip_region(img, NULL);
+        return;
+    }
     if (clip == 0) return;
     if (clip == 1) pixman_region32_init_rect(&r, 1, 1, 5, 4);
     else if (clip == 2) { pixman_box32_t b[2] = { { 0, 0, 3, 2 }, { 5, 2, 8, 5 } }; pixman_region32_init_rects(&r, b, 2); pixman_region32_union_rect(&r, &r, 0, 2, 3, 4); }
@@ -123,15 +130,16 @@ static void d_case(uint64_t idx, void *vctx)
     for (int i = 0; i < n; i++) dims[nd++] = c->npos;
     vf_decode(idx, dims, nd, v);
     int api = v[0], opi = v[1], srck = v[2], dfi = v[3], offi = v[4], clip = v[5], combo = v[6];
+    d_clip_was_reset = (int)((idx >> 1) % 3);
     int pos[3] = { 0, 0, 0 }; for (int i = 0; i < n; i++) pos[i] = v[7 + i];
     if (combo >= 5 && api != 0) return;
     pixman_op_t op = c->allops ? d_allops[opi] : d_ops[opi]; pixman_format_code_t df = d_dfmt[dfi];
     char opnm[24]; if (c->allops) snprintf(opnm, sizeof opnm, "op#%#x", (unsigned)op); else snprintf(opnm, sizeof opnm, "%s", d_opname[opi]);
     int dest_x = d_off[offi][0], dest_y = d_off[offi][1], src_x = d_off[offi][2], src_y = d_off[offi][3];
 
-    char desc[400]; size_t dl = 0;
+    char desc[520]; size_t dl = 0;
     dl += snprintf(desc + dl, sizeof desc - dl, "%s op=%s src=%s dest=%s(8x6) clip=%s dest_xy=(%d,%d) src_xy=(%d,%d) glyphs=%d[%s]", api == 0 ? "composite_glyphs_no_mask" : "composite_glyphs",
-                   opnm, d_srcname[srck], d_dfmtname[dfi], d_clipname[clip], dest_x, dest_y, src_x, src_y, n, n ? d_comboname[combo] : "-");
+                   opnm, d_srcname[srck], d_dfmtname[dfi], (clip == 0 && d_clip_was_reset) ? (d_clip_was_reset == 1 ? "none(clipped to 0,0 3x2 earlier, reset with set_clip_region32 NULL)" : "none(clipped to 0,0 3x2 earlier, reset with set_clip_region NULL)") : d_clipname[clip], dest_x, dest_y, src_x, src_y, n, n ? d_comboname[combo] : "-");
     for (int i = 0; i < n; i++) dl += snprintf(desc + dl, sizeof desc - dl, " g%d:%s", i, d_posname[pos[i]]);
 
     /* glyph images (the harness's own copies) */
